@@ -133,6 +133,15 @@ where
             let rr = guarded(|| serde_amqp::from_reader::<T>(&mut src));
             match (&rr, &r) { (Ok(a), Ok(b)) if eqv(a, b) => {} (Err(_), Err(_)) => {} _ => rd = "differs" }
         }
+        // a stream reader must not take more from the stream than the value: whatever it reads ahead is lost with it
+        // (the frame decoder hands the rest of the stream on as payload).  Fed one byte at a time the position is exact.
+        if c["k"] != "message" && r.is_ok() {
+            let mut full = e.clone();
+            full.extend_from_slice(&[1, 2, 3, 0xff]);
+            let mut src = Chunked { data: &full, pos: 0, chunk: 1 };
+            let rr = guarded(|| serde_amqp::from_reader::<T>(&mut src));
+            if rr.is_ok() && src.pos != e.len() { rd = "overreads"; }
+        }
         rdv.push(rd);
         // performative followed by payload: decoding must stop exactly at the end of the value
         // (a message is by definition the whole payload: sections are read until the input ends)
